@@ -16,10 +16,10 @@ from ..recorder import Recorder
 from . import _simcases as S
 
 RULE = (
-    "case = one ill-posed problem: unbalanced constant currents (relative imbalance 1..1e-6, 2-4 terminals), unknown terminal, "
+    "case = one ill-posed problem: unbalanced constant currents (relative imbalance 1..1e-6, 2-4 terminals, bias down to 1e-7 of the natural scale), unknown terminal, "
     "time-dependent currents unbalanced always / on >= 25% of the interval, epsilon = 1 + {1,1e-3,1e-6} (constant, callable, "
     "vectorised or not, time-dependent), each SolverOptions.validate() rule, terminal touching no boundary, seed solution from a "
-    "different device, vector potential of wrong shape, invalid polygons (self-intersecting, too few points, wrong shape), unnamed "
+    "different device, vector potential of wrong shape (tdgl.Parameter or plain function), imbalance on a very weak bias, invalid polygons (self-intersecting, too few points, wrong shape), unnamed "
     "film/hole, duplicate names, probe outside the film; each with and without an explicit output path. non-trivial = the "
     "problem was constructed and submitted (rejection and cleanliness both evaluated); distinct = distinct (class, magnitude, device)"
 )
@@ -34,6 +34,7 @@ CLASSES = [
     "epsilon_callable_novec", "epsilon_time", "opt_dt", "opt_terminal_psi", "opt_multiplier_low", "opt_multiplier_high", "opt_drag_zero", "opt_drag_high",
     "opt_step_size", "opt_tolerance", "opt_gpu", "opt_sparse_unknown", "opt_sparse_umfpack", "opt_sparse_pardiso", "opt_sparse_cupy",
     "terminal_inside_film", "terminal_outside_film", "seed_other_device", "seed_other_device_shared_mesh", "seed_device_modified_in_place", "A_wrong_shape_1col", "A_wrong_shape_flat", "A_wrong_length",
+    "A_plain_callable_1col", "A_plain_callable_flat", "A_plain_callable_wrong_length", "A_plain_callable_transposed", "unbalanced_const_small_current",
     "polygon_self_intersecting", "polygon_two_points", "polygon_bad_shape", "film_unnamed", "hole_unnamed", "hole_duplicate_names",
     "terminal_duplicate_names", "terminal_unnamed", "probe_outside_film", "probe_in_hole", "probe_bad_shape",
 ]
@@ -49,6 +50,8 @@ def gen_cases(tier, seed):
             mags = [None]
             if cls in ("unbalanced_const", "unbalanced_callable_always", "unbalanced_callable_window"):
                 mags = [1.0, 1e-2, 1e-4, 1e-6]
+            if cls == "unbalanced_const_small_current":
+                mags = [1e-2, 1e-4, 1e-6]
             if cls.startswith("epsilon"):
                 mags = [1.0, 1e-3, 1e-6]
             for mag in mags:
@@ -171,6 +174,12 @@ def run_case(spec):
                 if cls == "unbalanced_const":
                     k = names[int(rng.integers(len(names)))]
                     tc[k] = tc[k] * (1 + mag) if tc[k] else mag
+                elif cls == "unbalanced_const_small_current":
+                    # the same relative imbalance on a much weaker bias: ill-posedness does not depend on the magnitude
+                    f = float(rng.choice([1e-3, 1e-5, 1e-7]))
+                    tc = {k: v * f for k, v in tc.items()}
+                    k = next(k for k in names if tc[k])
+                    tc[k] = tc[k] * (1 + mag)
                 elif cls == "unknown_terminal":
                     # a misspelt terminal name carrying the balancing current
                     tc = dict(tc); k = names[-1]; tc[k + "_typo"] = tc.pop(k)
@@ -230,6 +239,14 @@ def run_case(spec):
                     avp = tdgl.Parameter(_A_flat)
                 elif cls == "A_wrong_length":
                     avp = tdgl.Parameter(_A_wrong_length)
+                elif cls == "A_plain_callable_1col":
+                    avp = _A_one_column_nonzero  # plain functions are accepted in place of a tdgl.Parameter
+                elif cls == "A_plain_callable_flat":
+                    avp = _A_flat
+                elif cls == "A_plain_callable_wrong_length":
+                    avp = _A_wrong_length
+                elif cls == "A_plain_callable_transposed":
+                    avp = _A_transposed
                 elif cls == "seed_other_device":
                     other = copy.deepcopy(dspec)
                     other["film"]["w"] *= 1.1
@@ -314,6 +331,15 @@ def run_case(spec):
 
 def _A_one_column(x, y, z):
     return np.zeros((len(np.atleast_1d(x)), 1))
+
+
+def _A_one_column_nonzero(x, y, z):
+    return 0.05 * np.atleast_1d(y)[:, None]
+
+
+def _A_transposed(x, y, z):
+    x = np.atleast_1d(x)
+    return np.zeros((3, len(x)))
 
 
 def _A_flat(x, y, z):
